@@ -85,7 +85,7 @@ class C14Interactions(Machine):
                            "(buggify: u=0, 1-2^-53, CC/NC and low-y thresholds, Poisson 0/large)"], "stub": []}
     assumptions = ["bounds carry a 1e-12 slack", "buggify violations reported only if the minimised trace "
                    "needs <=3 injected draws"]
-    required_counters = ("draws.rand", "probe.particles_checked", "draws.injected", "probe.secondaries_won",
+    required_counters = ("probe.energy_reassigned", "draws.rand", "probe.particles_checked", "draws.injected", "probe.secondaries_won",
                          "probe.sigma_sum_checked")
 
     def draw_config(self, rng):
@@ -140,6 +140,20 @@ class C14Interactions(Machine):
             st, p = self.sut(P.Particle, pid, (0, 0, -100), (0, 0, 1), energy,
                              interaction_model=self.model, interaction_type=kind, where="Particle()")
             self._check_particle(p, kind)
+            if (idx + int(energy)) % 4 == 0 and energy < 1e15:
+                # the documented energy attribute is reassigned on the live particle: the
+                # cross-section identities must hold at the new energy as well
+                before = (float(p.interaction.cross_section), float(p.interaction.total_cross_section))
+                p.energy = energy * (10.0 if energy < 1e11 else 0.1)
+                self.count("probe.energy_reassigned")
+                self._check_cross_sections(p)
+                after = (float(p.interaction.cross_section), float(p.interaction.total_cross_section))
+                up = p.energy > energy
+                if any((a <= b) if up else (a >= b) for a, b in zip(after, before)):
+                    raise Violation("C14:cross-section-not-increasing",
+                                    "after reassigning the energy from %r to %r GeV the cross sections went "
+                                    "from %r to %r" % (energy, p.energy, before, after))
+                p.energy = energy
             key = (p.id.value > 0, p.interaction.kind.value)
             by_group.setdefault(key, []).append((energy, float(p.interaction.cross_section),
                                                  float(p.interaction.total_cross_section)))
@@ -179,7 +193,12 @@ class C14Interactions(Machine):
         elif not (em == 0 and abs(had - y) <= 1e-12):
             self.count("probe.secondaries_won")
             self.nontrivial = True
-        # cross sections
+        self._check_cross_sections(p)
+
+    def _check_cross_sections(self, p):
+        P = self.pyrex
+        it = p.interaction
+        kind = it.kind.value
         s, t = float(it.cross_section), float(it.total_cross_section)
         if not (s > 0 and t > 0 and math.isfinite(s) and math.isfinite(t)):
             raise Violation("C14:cross-section-sign", "cross_section=%r total=%r at %r GeV" % (s, t, p.energy))
